@@ -61,7 +61,10 @@ func bdnOne(seed int64, mode string) bdnResult {
 		res.Msg = "harness: handshake failed"
 		return res
 	}
-	time.Sleep(2 * time.Millisecond)
+	if !s.awaitCmd("getheaders", 1, 10*time.Second) {
+		res.Msg = "harness: the node did not ask its verification question"
+		return res
+	}
 	verified := step("hdrBSV")
 	for w := time.Now().Add(5 * time.Second); verified && !s.node.IsReady() && time.Now().Before(w); {
 		time.Sleep(time.Millisecond) // the ready flag is set by the handshake goroutine
